@@ -208,21 +208,25 @@ CLAIMED = {
    technique="Coq proof over a JSON-tree model of save/load + vm_compute correspondence of the shape test + continuation differential",
    design_ref="DESIGN.md §6 C05"),
  "C19": dict(
-   category="translation_validation",
-   text="The browser engine is a textual fork of the main engine without hooks and @join; it is validated, not separately modelled.  "
-        "On every run: (a) fork_diff - an ast comparison of engine.py and engine_browser.py; every function whose body differs, or exists on "
-        "one side only, must be in the list the argument accounts for; (b) the ONE engine model Engine/Engine.v (for which C02-C10/C15 are "
-        "proved) is evaluated inside Coq against the real BROWSER engine on generated common-subset stories x histories; (c) the two real "
-        "engines are compared step by step (outputs, variables, used choices, undo/redo flags, save documents) including save->JSON->load "
-        "hand-overs; (d) bundle contents: create_browser_bundle on a story with an @include - game.json equals compile_file's output and the "
-        "copied engine is byte-identical to the template.  Supporting theorems in coq/Props/C19.v (closed, named _partial): on the common "
-        "subset the model never offers a '-> @join' choice or a choice of another section, so choose() always takes the ordinary path; the "
-        "turn_end run is the identity while nothing is registered; the section test is vacuous for section-0 choices - i.e. the model never "
-        "exercises what the fork lacks.  A step-by-step simulation between two models is not proved (there is one model).",
-   note="Trusted: the ast comparison and its ACCOUNTED list (harness/c19.py); Coq kernel + vm_compute for the model evaluation; the engine "
-        "model's own tie to the main engine (engine checks); React hints, imports and localStorage helpers of the fork are not exercised.",
-   technique="fork diff (ast) + differential of both real engines + vm_compute comparison of the fork with the proved engine model; partial Coq lemmas",
-   design_ref="DESIGN.md §6 C19"),
+   category="proof",
+   text="Refinement between two separate Gallina models, coq/Props/C19.v (closed under the global context): Engine/BrowserEngine.v "
+        "models engine_browser.py function by function (no hook registry, hook and join-marker tokens fall through, no section filter, no "
+        "'-> @join' path, no turn_end run, snapshots of four fields); browser_model_refines_main_model: for every author-code oracle, every "
+        "story of the common subset (no hook command, no join marker, no '-> @join' choice) and EVERY operation list (choose with any index, "
+        "undo, redo, goto, reset, reads, save/load, inputs, rejected loads) the two models give the same observations and views step by step "
+        "except the two fields the fork does not have; main_model_never_uses_hooks_or_join; common_tokens_render_alike (token-tree "
+        "induction).  Ties on every run: the REAL browser engine vs the browser model and the REAL main engine vs the main model, evaluated "
+        "inside Coq on generated common-subset stories x histories incl. save->JSON->load; the two real engines step by step (outputs, "
+        "variables, used choices, undo/redo flags, save documents); fork_diff (ast comparison of engine.py and engine_browser.py: every "
+        "differing function must be one the browser model has its own version of); bundle contents: game.json = compile_file's output for "
+        "builds into a new directory, rebuilds after an include changed, builds into another story's directory and from a .json; the copied "
+        "engine byte-identical to the template.",
+   note="Trusted: Coq kernel + vm_compute; both hand-written models tied to the code by the correspondence run; the ast comparison and its "
+        "ACCOUNTED list (harness/c19.py); React hints, import execution and localStorage helpers of the fork are outside both models; the "
+        "bundle-content clause is differential only.",
+   technique="Coq simulation proof between a model of the fork and the main engine model (relational monad lemmas, token-tree and fuel "
+             "induction) + vm_compute correspondence of each real engine with its model + fork diff (ast) + bundle differential",
+   design_ref="DESIGN.md §6 C19, §12.2"),
  "C16": dict(
    category="proof",
    text="Split, and said so in the evidence (level_split).  PROOF for the aliasing clauses: coq/Props/C16.v (closed) over Codec/Cells.v, a "
